@@ -26,6 +26,60 @@ def run(ck):
     ck.rules_text = "CALLEE/ENF/CMP/EFF over MIR of curve_arithmetic, key_derivation, ed25519_hd_key_derivation, keygen_bls"
     c = crate("rs", CB)
 
+    canonical_decoders(ck, c)
+
+    # determinism
+    crs = [c, crate("rs", "key_derivation"), crate("rs", "ed25519_hd_key_derivation"), crate("rs", "keygen_bls")]
+    cg = CallGraph(crs)
+    roots = [p for p in cg.bodies if re.search(r"curve_arithmetic::.*::(hash_to_group|scalar_from_bytes|hash_to_curve|hash_to_field|hash_bytes_to_curve_arkworks)[a-z_0-9]*$", p)]
+    roots += [p for p in cg.bodies if re.match(r"key_derivation::ConcordiumHdWallet::(get_|make_)", p)]
+    roots += [p for p in cg.bodies if re.match(r"key_derivation::(words_to_seed|words_to_seed_with_passphrase|bls_key_bytes_from_seed)$", p)]
+    roots += [p for p in cg.bodies if re.match(r"ed25519_hd_key_derivation::(derive|derive_from_parsed_path|ckd_priv|get_master_key_from_seed|parse_path|harden|checked_harden)$", p)]
+    roots += [p for p in cg.bodies if p == "keygen_bls::keygen_bls"]
+    ck.floor("EFF", "deterministic derivation functions", len(roots), 22)
+    for r in sorted(set(roots)):
+        ch = cg.path_to_ext([r], NONDET)
+        ck.ob("EFF", r, "no-nondeterminism", ch is None, "no path to RNG/clock/env" if ch is None else " -> ".join(ch), "")
+
+    # SLIP-10 hardened indices and seed bounds
+    H = "ed25519_hd_key_derivation"
+    f = getfn(ck, "rs", H, H + "::ckd_priv")
+    if f:
+        found = rules.find_cmp(f, [("bin", "BitAnd"), ("const", "HARDENED_OFFSET"), ("arg", 2)], [("lit", 0)])
+        ck.ob("CMP", f.path, "non-hardened-rejected", any(x[1] == "Eq" for x in found), "index & HARDENED_OFFSET == 0 rejects", f.loc())
+    f = getfn(ck, "rs", H, H + "::checked_harden")
+    if f:
+        found = rules.find_cmp(f, [("bin", "BitAnd"), ("const", "HARDENED_OFFSET"), ("arg", 1)], [("lit", 0)])
+        ck.ob("CMP", f.path, "already-hardened-rejected", any(x[1] == "Ne" for x in found), "index & HARDENED_OFFSET != 0 rejects", f.loc())
+    f = getfn(ck, "rs", H, H + "::derive_from_parsed_path")
+    if f:
+        lo = rules.find_cmp(f, [("arg", 2), ("call", r"::len$")], [("lit", 16)])
+        hi = rules.find_cmp(f, [("arg", 2), ("call", r"::len$")], [("lit", 64)])
+        ck.ob("CMP", f.path, "seed-too-short", any(x[1] == "Lt" for x in lo), "seed.len() < 16 rejects", f.loc())
+        ck.ob("CMP", f.path, "seed-too-long", any(x[1] == "Gt" for x in hi), "seed.len() > 64 rejects", f.loc())
+        enf_calls(ck, f, r"ed25519_hd_key_derivation::ckd_priv$", "ckd_priv")
+    f = getfn(ck, "rs", H, H + "::parse_path")
+    if f:
+        enf_calls(ck, f, r"Regex::is_match$", "path grammar")
+        found = rules.find_cmp(f, [("call", r"str::<impl str>::parse$|::parse$")], [("lit", 2147483648)])
+        ck.ob("CMP", f.path, "index-out-of-range", any(x[1] == "Ge" for x in found), "segment >= 2^31 rejects", f.loc())
+    K = "key_derivation"
+    for name in ("make_path", "make_verifiable_credential_path"):
+        f = getfn(ck, "rs", K, K + "::ConcordiumHdWallet::" + name)
+        if f:
+            enf_calls(ck, f, r"ed25519_hd_key_derivation::checked_harden$", "checked_harden")
+            pushes = f.calls(r"Vec::<T, A>::push$|Vec::<T>::push$")
+            for n_, (bi, t) in enumerate(pushes):
+                o = f.origins(t["args"][1], deep=True)
+                ck.ob("DEFUSE", f.path, "pushed-index-hardened#%d" % n_, has_call_origin(o, r"checked_harden$|::harden$"), "every pushed index comes from (checked_)harden", f.loc(bi))
+    f = getfn(ck, "rs", "keygen_bls", "keygen_bls::keygen_bls")
+    if f:
+        enf_calls(ck, f, r"Hkdf::<H, I>::expand$|::expand$", "hkdf expand")
+
+
+def canonical_decoders(ck, c):
+    """group elements and scalars are decoded with the validating canonical decoders, failures reject, and no Deserial
+    implementation of the crate calls an unchecked or reducing constructor"""
     def deserial_impl(self_pat):
         res = []
         for p in c.paths():
@@ -82,51 +136,3 @@ def run(ck):
                     ck.ob("CALLEE", f.path, "forbidden:" + t["f"]["name"], False, "Deserial implementation calls %s" % t["f"]["path"], f.loc(bi))
     ck.ob("CALLEE", "-", "deserial-sweep", True, "%d Deserial implementations scanned for unchecked/reducing decoders" % n, "", nontrivial=False)
     ck.floor("CALLEE", "Deserial implementations", n, 326)
-
-    # determinism
-    crs = [c, crate("rs", "key_derivation"), crate("rs", "ed25519_hd_key_derivation"), crate("rs", "keygen_bls")]
-    cg = CallGraph(crs)
-    roots = [p for p in cg.bodies if re.search(r"curve_arithmetic::.*::(hash_to_group|scalar_from_bytes|hash_to_curve|hash_to_field|hash_bytes_to_curve_arkworks)[a-z_0-9]*$", p)]
-    roots += [p for p in cg.bodies if re.match(r"key_derivation::ConcordiumHdWallet::(get_|make_)", p)]
-    roots += [p for p in cg.bodies if re.match(r"key_derivation::(words_to_seed|words_to_seed_with_passphrase|bls_key_bytes_from_seed)$", p)]
-    roots += [p for p in cg.bodies if re.match(r"ed25519_hd_key_derivation::(derive|derive_from_parsed_path|ckd_priv|get_master_key_from_seed|parse_path|harden|checked_harden)$", p)]
-    roots += [p for p in cg.bodies if p == "keygen_bls::keygen_bls"]
-    ck.floor("EFF", "deterministic derivation functions", len(roots), 22)
-    for r in sorted(set(roots)):
-        ch = cg.path_to_ext([r], NONDET)
-        ck.ob("EFF", r, "no-nondeterminism", ch is None, "no path to RNG/clock/env" if ch is None else " -> ".join(ch), "")
-
-    # SLIP-10 hardened indices and seed bounds
-    H = "ed25519_hd_key_derivation"
-    f = getfn(ck, "rs", H, H + "::ckd_priv")
-    if f:
-        found = rules.find_cmp(f, [("bin", "BitAnd"), ("const", "HARDENED_OFFSET"), ("arg", 2)], [("lit", 0)])
-        ck.ob("CMP", f.path, "non-hardened-rejected", any(x[1] == "Eq" for x in found), "index & HARDENED_OFFSET == 0 rejects", f.loc())
-    f = getfn(ck, "rs", H, H + "::checked_harden")
-    if f:
-        found = rules.find_cmp(f, [("bin", "BitAnd"), ("const", "HARDENED_OFFSET"), ("arg", 1)], [("lit", 0)])
-        ck.ob("CMP", f.path, "already-hardened-rejected", any(x[1] == "Ne" for x in found), "index & HARDENED_OFFSET != 0 rejects", f.loc())
-    f = getfn(ck, "rs", H, H + "::derive_from_parsed_path")
-    if f:
-        lo = rules.find_cmp(f, [("arg", 2), ("call", r"::len$")], [("lit", 16)])
-        hi = rules.find_cmp(f, [("arg", 2), ("call", r"::len$")], [("lit", 64)])
-        ck.ob("CMP", f.path, "seed-too-short", any(x[1] == "Lt" for x in lo), "seed.len() < 16 rejects", f.loc())
-        ck.ob("CMP", f.path, "seed-too-long", any(x[1] == "Gt" for x in hi), "seed.len() > 64 rejects", f.loc())
-        enf_calls(ck, f, r"ed25519_hd_key_derivation::ckd_priv$", "ckd_priv")
-    f = getfn(ck, "rs", H, H + "::parse_path")
-    if f:
-        enf_calls(ck, f, r"Regex::is_match$", "path grammar")
-        found = rules.find_cmp(f, [("call", r"str::<impl str>::parse$|::parse$")], [("lit", 2147483648)])
-        ck.ob("CMP", f.path, "index-out-of-range", any(x[1] == "Ge" for x in found), "segment >= 2^31 rejects", f.loc())
-    K = "key_derivation"
-    for name in ("make_path", "make_verifiable_credential_path"):
-        f = getfn(ck, "rs", K, K + "::ConcordiumHdWallet::" + name)
-        if f:
-            enf_calls(ck, f, r"ed25519_hd_key_derivation::checked_harden$", "checked_harden")
-            pushes = f.calls(r"Vec::<T, A>::push$|Vec::<T>::push$")
-            for n_, (bi, t) in enumerate(pushes):
-                o = f.origins(t["args"][1], deep=True)
-                ck.ob("DEFUSE", f.path, "pushed-index-hardened#%d" % n_, has_call_origin(o, r"checked_harden$|::harden$"), "every pushed index comes from (checked_)harden", f.loc(bi))
-    f = getfn(ck, "rs", "keygen_bls", "keygen_bls::keygen_bls")
-    if f:
-        enf_calls(ck, f, r"Hkdf::<H, I>::expand$|::expand$", "hkdf expand")
